@@ -178,3 +178,21 @@ def selector_table(f, field, valuations):
             objs.add(o if row is None else '%s[%d]' % (o, row))
         out.append((val, sorted(str(x) for x in objs), definite))
     return out, len(stores)
+
+
+def find_assign(f, name, pred=None):
+    """RHS expressions assigned to the local called `name` (decl initialisers and assignments)"""
+    out = []
+    for n in f.all_nodes():
+        if n[0] == 'assign' and sx.kind(n[1]) == 'local' and n[1][1] == name:
+            if pred is None or pred(n[2]):
+                out.append((n[1], n[2]))
+        if n[0] == 'decls':
+            for d in n[1]:
+                if d[0] == 'decl' and d[1] == name and d[3] is not None and (pred is None or pred(d[3])):
+                    out.append((['local', d[1], d[2]], d[3]))
+    return out
+
+
+def mentions(e, pred):
+    return any(pred(n) for n in sx.walk(e))
